@@ -316,13 +316,7 @@ Definition cli_evaluate_model (Scr Th Pr PrT Ob Nm Ev : Type) (L : ev_lib Scr Th
    25 KeyError (a KEY that is not a required __init__ argument), 26 TypeError ('NoneType' object is not callable: a
    required argument without annotation; the empty marker takes no arguments), 29 TypeError "The given object is not a class.", 30 NameError of
    create_instance, 31 ValueError "is not a subclass of"; 98 IndexError, 99 TypeError on None (Lib/PyRt.v). *)
-Definition str : Type := list Z.
-Fixpoint str_eqb (a b : str) : bool :=
-  match a, b with
-  | [], [] => true
-  | x :: a', y :: b' => (x =? y) && str_eqb a' b'
-  | _, _ => false
-  end.
+Definition str : Type := pystr.      (* Lib/PyRt.v: the list of code points; equality test PyRt.str_eqb *)
 
 (* ---------- str.split(sep, maxsplit) ---------- *)
 Fixpoint str_prefix (p s : str) : bool :=
